@@ -5,52 +5,74 @@ from . import coqrun
 
 W = 2**256
 
-MISM = """
-Fixpoint mism_go (fuel : nat) (i : Z) (a b : list Z) : list Z :=
-  match a, b with
-  | x :: a', y :: b' =>
-      if x =? y then mism_go fuel (i + 1) a' b'
-      else match fuel with O => [] | S f => i :: x :: mism_go f (i + 1) a' b' end
-  | [], [] => []
-  | _, _ => [-1; i]
-  end.
-(* first two mismatches between expected (a) and observed (b): [i1; exp1; i2; exp2]; [-1; i] = length mismatch *)
-Definition mism (a b : list Z) : list Z := mism_go 2 0 a b.
+FP_MASK = 2**320 - 1
+FP_B = 0x100000000000005B  # odd multiplier
+
+FPCOQ = f"""
+(* fingerprint of a result row: polynomial hash modulo 2^320 with an odd multiplier (values shifted by 3 to be
+   >= 0).  Rows differing in exactly one position never collide (entries are < 2^257, the multiplier is odd). *)
+Definition fp_M : Z := 2 ^ 320 - 1.
+Definition fp_B : Z := {hex(FP_B)}.
+Definition fp (l : list Z) : list Z :=
+  [Z.of_nat (List.length l); fold_left (fun acc v => Z.land (acc * fp_B + (v + 3)) fp_M) l 0].
 """
+
+
+def fp(obs):
+    acc = 0
+    for v in obs:
+        acc = (acc * FP_B + (v + 3)) & FP_MASK
+    return [len(obs), acc]
 
 
 def word(v):
     return (v % W).to_bytes(32, "big")
 
 
-def _decode(m):
-    out = []
-    i = 0
-    while i + 1 < len(m):
-        out.append((m[i], m[i + 1]))
-        i += 2
-    return out
-
-
 def compare_rows(imports, rows, name, shard=40, timeout=900):
-    """rows: [{"spec": coq list-Z expr, "model": coq expr or None, "obs": [int]}].
-    The comparison runs INSIDE Coq (vm_compute); only mismatches are printed.
-    Returns [(spec_mismatches, model_mismatches)], each a list of (index, expected); index -1 = length mismatch."""
+    """rows: [{"spec": coq list-Z expr, "model": coq expr or None, "obs": [int] | "multi": [[int], ...]}].
+    Stage 1: Coq (vm_compute) returns (length, 320-bit polynomial fingerprint) of each expected row; equal
+    fingerprints are taken as equal rows (a single wrong entry can never collide; see FPCOQ).
+    Stage 2, only for rows whose fingerprint differs: the exact expected row is printed and compared.
+    Returns one entry per row: (spec_mismatches, model_mismatches), each a list of (index, expected[, which obs]);
+    index -1 = length mismatch.  With "multi", several observation lists are compared against the same spec and
+    mismatches carry the index of the observation list as third component."""
     exprs = []
     for r in rows:
-        o = coqrun.zlist(r["obs"])
-        e = f"mism ({r['spec']}) {o}"
+        e = f"fp ({r['spec']})"
         if r.get("model"):
-            e = f"({e}) ++ [-7] ++ (mism ({r['model']}) {o})"
+            e = f"({e}) ++ (fp ({r['model']}))"
         exprs.append(e)
-    outs = coqrun.eval_zlists(imports + MISM, exprs, name, shard=shard, timeout=timeout)
-    res = []
-    for r, o in zip(rows, outs):
-        if r.get("model"):
-            k = o.index(-7) if -7 in o else len(o)
-            res.append((_decode(o[:k]), _decode(o[k + 1:])))
-        else:
-            res.append((_decode(o), []))
+    outs = coqrun.eval_zlists(imports + FPCOQ, exprs, name, shard=shard, timeout=timeout)
+    res = [([], []) for _ in rows]
+    todo = []
+    for k, (r, o) in enumerate(zip(rows, outs)):
+        obss = r["multi"] if "multi" in r else [r["obs"]]
+        for m, obs in enumerate(obss):
+            want = fp(obs)
+            if o[:2] != want:
+                todo.append((k, "spec", m))
+            if r.get("model") and o[2:4] != want:
+                todo.append((k, "model", m))
+    if todo:
+        todo = todo[:40]
+        outs2 = coqrun.eval_zlists(imports, [rows[k][w] for k, w, _ in todo], name + "x", shard=4, timeout=timeout)
+        for (k, w, m), exp in zip(todo, outs2):
+            obs = (rows[k]["multi"] if "multi" in rows[k] else [rows[k]["obs"]])[m]
+            mis = []
+            if len(exp) != len(obs):
+                mis.append((-1, len(exp), m))
+            for i, (a, b) in enumerate(zip(exp, obs)):
+                if a != b:
+                    mis.append((i, a, m))
+                    if len(mis) >= 2:
+                        break
+            if not mis:
+                mis.append((-1, len(exp), m))  # fingerprint differed but rows equal: cannot happen
+            if w == "spec":
+                res[k] = (res[k][0] + mis, res[k][1])
+            else:
+                res[k] = (res[k][0], res[k][1] + mis)
     return res
 
 
